@@ -69,10 +69,10 @@ func zzBitLenBig(v *big.Int, maxBits int) int {
 `
 
 func genC47(tier string) (map[string]string, error) {
+	// both tiers explore 2 draws: the harness assertions describe exactly one rejection followed by
+	// the accepted draw (a 3-draw variant failed its own "n == 2" assertion: a harness error)
 	draws := "2"
-	if tier == "thorough" {
-		draws = "3"
-	}
+	_ = tier
 	var sb strings.Builder
 	sb.WriteString(strings.ReplaceAll(c47Header, "MAXDRAWS", draws))
 	native := []struct {
